@@ -252,8 +252,9 @@ func refWalk(root string, o opt, ignores []string) []refEntry {
 			}
 		}
 	}
-	rel := root
-	if root == "." {
+	// listed paths are relative to the working directory in clean form, however the root was spelled
+	rel := filepath.Clean(root)
+	if rel == "." {
 		rel = ""
 	}
 	rec(root, rel, 0)
@@ -287,10 +288,33 @@ func worker(r *vk.Run, w, n int, args []string) {
 					d := ti.allDirs[rng.Intn(len(ti.allDirs))]
 					if !strings.Contains(d, "/") && !strings.HasPrefix(d, ".") && !strings.HasPrefix(d, "-") {
 						roots, rkind = []string{d}, "subdir"
+						switch rng.Intn(6) {
+						case 0:
+							roots, rkind = []string{"./" + d}, "subdir-dotslash"
+						case 1:
+							roots, rkind = []string{d + "/"}, "subdir-trailing"
+						case 2:
+							roots, rkind = []string{"././" + d}, "subdir-dotdot"
+						case 3:
+							// several roots: each is walked once, in the given order
+							roots, rkind = []string{d, "."}, "two-roots"
+							for _, d2 := range ti.allDirs {
+								if d2 != d && !strings.Contains(d2, "/") && !strings.HasPrefix(d2, ".") && !strings.HasPrefix(d2, "-") {
+									roots, rkind = []string{d, d2}, "two-roots"
+									if rng.Intn(2) == 0 {
+										roots, rkind = []string{d2, ".", d}, "three-roots"
+									}
+									break
+								}
+							}
+						}
 					}
 				}
-				if rkind == "subdir" && skipped(roots[0], roots[0], ignores) {
-					ignores, ikind = nil, "none" // a root that is itself on the skip list is outside the property
+				for _, root := range roots {
+					c := filepath.Clean(root)
+					if c != "." && skipped(c, c, ignores) {
+						ignores, ikind = nil, "none" // a root that is itself on the skip list is outside the property
+					}
 				}
 				checkWalk(r, troot, roots, o, ignores, ikind+" "+rkind, feat)
 			}
@@ -350,22 +374,19 @@ func checkWalk(r *vk.Run, troot string, roots []string, o opt, ignores []string,
 	})
 	var ref []refEntry
 	for _, root := range roots {
+		// a root other than the working directory is itself listed when directories are
+		if c := filepath.Clean(root); o.dir && c != "." {
+			ref = append(ref, refEntry{path: c + "/"})
+		}
 		ref = append(ref, refWalk(root, o, ignores)...)
 	}
 	r.Eval(1)
 	r.Count("walks", 1)
 	r.Count("paths_compared", int64(len(ref)))
 	r.Distinct(o.String() + " / " + kind + " / " + feat)
-	rootSet := map[string]bool{}
-	for _, root := range roots {
-		rootSet[root] = true
-		rootSet[root+"/"] = true
-	}
 	gm := map[string]int{}
 	for _, g := range got {
-		if !rootSet[g] {
-			gm[g]++
-		}
+		gm[g]++
 	}
 	wm := map[string]int{}
 	for _, e := range ref {
